@@ -275,8 +275,21 @@ func Gen(pr Profile) func(t *rapid.T) Scenario {
 					ops = append(ops, recipe.FileOp{Op: "Anon", Args: args})
 				} else {
 					a := "anon.example/" + rapid.SampledFrom(lastElems).Draw(t, "anonlast")
+					args := []recipe.Text{recipe.Text(a)}
+					switch rapid.IntRange(0, 5).Draw(t, "anonlist") {
+					case 0:
+						// one call whose list starts with a path an earlier call has imported already
+						if len(anonOnly) > 0 {
+							args = append([]recipe.Text{recipe.Text(rapid.SampledFrom(anonOnly).Draw(t, "anonagain"))}, args...)
+						}
+					case 1:
+						// a path repeated within one call, others behind it
+						b := "anon.example/second/" + rapid.SampledFrom(lastElems).Draw(t, "anonlast2")
+						args = []recipe.Text{recipe.Text(a), recipe.Text(a), recipe.Text(b)}
+						anonOnly = append(anonOnly, b)
+					}
 					anonOnly = append(anonOnly, a)
-					ops = append(ops, recipe.FileOp{Op: "Anon", Args: []recipe.Text{recipe.Text(a)}})
+					ops = append(ops, recipe.FileOp{Op: "Anon", Args: args})
 				}
 			case "PackagePrefix":
 				ops = append(ops, recipe.FileOp{Op: "PackagePrefix", Args: []recipe.Text{recipe.Text(rapid.SampledFrom(prefixChoices).Draw(t, "pkgprefix"))}})
